@@ -309,10 +309,21 @@ Next ==
 
 Spec == Init /\ [][Next]_vars
 
+\* A reduced scheduler for larger graphs: completion messages are sent as late as possible -- a Send step
+\* is taken only when nothing else can happen (which message goes first stays nondeterministic).  Every
+\* behaviour of SpecLazy is a behaviour of Spec (it only removes interleavings), so an invariant violated
+\* here is violated there; it stretches the decrement -> send window, the scheduler's delicate spot,
+\* to its maximum while keeping the state space small enough for breadth-first search.
+NonSend ==
+  \/ LoopExit \/ Wave \/ RecvFirst \/ Drain \/ DrainEnd \/ Handle \/ HandleEnd
+  \/ \E j \in Ids : Start(j) \/ FinishAny(j)
+NextLazy == NonSend \/ (~ENABLED NonSend /\ \E j \in Ids : Send(j))
+
 \* stuttering once everything is over, so that TLC's deadlock check finds real hangs only
 Quiescent == Terminal /\ InFlight = {}
 NextOrDone == Next \/ (Quiescent /\ UNCHANGED vars)
 SpecD == Init /\ [][NextOrDone]_vars
+SpecLazy == Init /\ [][NextLazy \/ (Quiescent /\ UNCHANGED vars)]_vars
 
 FairSpec == Spec /\ WF_vars(Next)
 
